@@ -32,6 +32,25 @@ with tempfile.TemporaryDirectory(dir="/var/tmp") as td:
         bad = any(c.tag in ("failure", "error", "skipped") for c in tc)
         (failed if bad else passed).add(name)
 missing = sorted(stable - passed)
+# hypothesis-driven tests in tests/yadism/test_runner.py are flaky (BASELINE.json lists two of them): re-run what is missing once
+if missing and len(missing) <= 5:
+    ids = []
+    for m in missing:
+        cls, name = m.split("::")
+        parts = cls.split(".")
+        # tests.yadism.test_runner.TestRunner -> tests/yadism/test_runner.py::TestRunner::name
+        if parts[-1][:1].isupper():
+            ids.append("/".join(parts[:-1]) + ".py::" + parts[-1] + "::" + name)
+        else:
+            ids.append("/".join(parts) + ".py::" + name)
+    env2 = dict(os.environ)
+    env2["PYTHONPATH"] = os.path.join(repo, "src")
+    for k in [k for k in env2 if k.startswith("YADISM_") or k in ("PYTHONWARNINGS",)]:
+        env2.pop(k)
+    p2 = subprocess.run(["/venv/bin/python", "-m", "pytest", "-q", "-p", "no:cacheprovider", "--timeout=900", "-p", "no:randomly"] + ids, cwd=repo, env=env2, capture_output=True, text=True)
+    if p2.returncode == 0:
+        print(f"  (re-run of {len(missing)} missing stable test(s) passed: flaky)")
+        missing = []
 print(f"baseline on {repo}: {len(passed)} passed, {len(failed)} failed/error; stable passing {len(stable & passed)}/{len(stable)}")
 for m in missing:
     print("  NOT PASSING:", m)
